@@ -20,7 +20,7 @@ TYPES = {"Bit": 1, "BitVector[2]": 2}
 
 
 def width(T):
-    return TYPES[T]
+    return AGG[T][0] if T in AGG else TYPES[T]
 
 
 def delay_kwargs(tx, rx):
@@ -60,6 +60,15 @@ def fifo_configs(thorough):
     add("Bit", (2, 3), ONE_SIDED)
     add("Bit", (2, 3), [(0, 0)] + QUICK_DELAYS + ONE_SIDED, ("2o",))
     add("Bit", (2, 3), [(0, 0), (1, 1)], ("2b",))
+    # aggregate element types (serialised records / arrays), zero delay, two contexts; N bounded by the width
+    for T in (AGG if thorough else QUICK_AGG):
+        w = AGG[T][0]
+        ns = (2, 3) if w <= 3 else (2,)
+        if thorough and w <= 3:
+            ns = (2, 3, 4)
+        add(T, ns, [(0, 0)], (2,))
+    add("Rec2:kwrev", (2,), [(1, 1)], (2,))
+    add("RecA:list", (2,), [(1, 1)], (2,))
     if thorough:
         add("Bit", (6, 7, 8), [(0, 0)])
         add("BitVector[2]", (6,), [(0, 0)], (1, 2))
@@ -84,26 +93,109 @@ def stack_configs(thorough):
         for n in ns:
             for mode in ("NO_OVERFLOW", "DROP_OLD"):
                 out.append(("stack", T, n, mode))
+    for T in (AGG if thorough else QUICK_AGG):
+        w = AGG[T][0]
+        for n in ((2, 3) if thorough and w <= 3 else (2,)):
+            for mode in ("NO_OVERFLOW", "DROP_OLD"):
+                out.append(("stack", T, n, mode))
     return out
 
 
-HEADER = """import cohdl
-from cohdl import std, Bit, BitVector, Port, Null, Unsigned
+
+# ---------------------------------------------------------------------------------------------------
+# aggregate element types (serialised through to_bits / from_bits inside the container's std.Array).
+# The wrapper gets the element as BitVector[W] `push_data`, builds the aggregate FIELD BY FIELD (never via
+# from_bits), and after pop/front re-assembles BitVector[W] field by field (never via to_bits), so the reference
+# simply compares integers: what went in comes out.   d = self.push_data;  {v} = the popped / front object.
+#   name -> (W, module-level definitions, element type, local set-up in architecture (concurrent), build expr, unpack expr)
+REC2 = "class Rec2(std.Record):\n    a: Bit\n    b: Unsigned[2]\n"
+REC3 = "class Rec3(std.Record):\n    a: Bit\n    b: BitVector[2]\n    c: Bit\n"
+OUTER = REC2 + "\n\nclass Outer(std.Record):\n    x: Bit\n    inner: Rec2\n"
+RECA = "class RecA(std.Record):\n    u: Bit\n    arr: std.Array[Bit, 2]\n"
+RECU = "class RecU(std.Record):\n    t: Bit\n    arr: std.Array[Unsigned[2], 2]\n"
+U2 = "{v}.b.bitvector @ {v}.a"
+U3 = "{v}.c @ {v}.b @ {v}.a"
+UO = "{v}.inner.b.bitvector @ {v}.inner.a @ {v}.x"
+UA = "{v}.arr[1] @ {v}.arr[0] @ {v}.u"
+UU = "{v}.arr[1].bitvector @ {v}.arr[0].bitvector @ {v}.t"
+SIG2 = "rsig = Signal[Rec2]()\n@std.concurrent\ndef fill():\n    rsig.a <<= d[0]\n    rsig.b <<= d[2:1].unsigned\n"
+ARR2 = "in_arr = std.Array[Bit, 2]()\n@std.concurrent\ndef fill():\n    in_arr[0] <<= d[1]\n    in_arr[1] <<= d[2]\n"
+ARR3 = "in_arr = std.Array[Bit, 3]()\n@std.concurrent\ndef fill():\n    in_arr[0] <<= d[0]\n    in_arr[1] <<= d[1]\n    in_arr[2] <<= d[2]\n"
+ARRU = "in_arr = std.Array[Unsigned[2], 2]()\n@std.concurrent\ndef fill():\n    in_arr[0] <<= d[1:0].unsigned\n    in_arr[1] <<= d[3:2].unsigned\n"
+ENUM = "class En(std.Enum[BitVector[2]]):\n    a = \"00\"\n    b = \"01\"\n    c = \"10\"\n    e = \"11\"\n"
+RECE = ENUM + "\n\nclass RecE(std.Record):\n    f: Bit\n    en: En\n"
+BITF = "from cohdl.std.bitfield import BitField, Field\n\n\nclass Bf(BitField[3]):\n    lo: Field[0]\n    hi: Field[2:1]\n"
+AGG = {
+    # Record, every constructor form
+    "Rec2:pos": (3, REC2, "Rec2", "", "Rec2(d[0], d[2:1].unsigned)", U2),
+    "Rec2:kw": (3, REC2, "Rec2", "", "Rec2(a=d[0], b=d[2:1].unsigned)", U2),
+    "Rec2:kwrev": (3, REC2, "Rec2", "", "Rec2(b=d[2:1].unsigned, a=d[0])", U2),
+    "Rec2:mix": (3, REC2, "Rec2", "", "Rec2(d[0], b=d[2:1].unsigned)", U2),
+    "Rec2:sig": (3, REC2, "Rec2", SIG2, "rsig", U2),
+    "Rec2:copy": (3, REC2, "Rec2", SIG2, "Rec2(rsig)", U2),
+    "Rec3:cab": (4, REC3, "Rec3", "", "Rec3(c=d[3], a=d[0], b=d[2:1])", U3),
+    "Rec3:bca": (4, REC3, "Rec3", "", "Rec3(b=d[2:1], c=d[3], a=d[0])", U3),
+    "Rec3:mix": (4, REC3, "Rec3", "", "Rec3(d[0], c=d[3], b=d[2:1])", U3),
+    # nested record
+    "Outer:pos": (4, OUTER, "Outer", "", "Outer(d[0], Rec2(d[1], d[3:2].unsigned))", UO),
+    "Outer:kwrev": (4, OUTER, "Outer", "", "Outer(inner=Rec2(b=d[3:2].unsigned, a=d[1]), x=d[0])", UO),
+    # record with a std.Array member (as upstream test_fifo_03 / test_stack_02)
+    "RecA:list": (3, RECA, "RecA", "", "RecA(u=d[0], arr=[d[1], d[2]])", UA),
+    "RecA:kwrev": (3, RECA, "RecA", "", "RecA(arr=[d[1], d[2]], u=d[0])", UA),
+    "RecA:sigarr": (3, RECA, "RecA", ARR2, "RecA(d[0], in_arr)", UA),
+    "RecU:list": (5, RECU, "RecU", "", "RecU(t=d[0], arr=[d[2:1].unsigned, d[4:3].unsigned])", UU),
+    # enum, record with an enum member, bit field
+    "Enum": (2, ENUM, "En", "", "En._unsafe_init_(d)", "{v}.raw"),
+    "RecE:kwrev": (3, RECE, "RecE", "", "RecE(en=En._unsafe_init_(d[2:1]), f=d[0])", "{v}.en.raw @ {v}.f"),
+    "BitField": (3, BITF, "Bf", "", "Bf(d)", "{v}.hi @ {v}.lo"),
+    # std.Array itself as element type
+    "ArrB3": (3, "", "std.Array[Bit, 3]", ARR3, "in_arr", "{v}[2] @ {v}[1] @ {v}[0]"),
+    "ArrU2": (4, "", "std.Array[Unsigned[2], 2]", ARRU, "in_arr", "{v}[1].bitvector @ {v}[0].bitvector"),
+}
+QUICK_AGG = [k for k in AGG if k != "RecU:list"]
+
+
+def is_agg(T):
+    return T in AGG
+
+
+def _elem(T):
+    """(port type, element type, module definitions, architecture set-up, push expression, unpack template)"""
+    if T in AGG:
+        w, defs, et, setup, build, unpack = AGG[T]
+        return f"BitVector[{w}]", et, defs, setup, build, unpack
+    return T, T, "", "", "self.push_data", "{v}"
+
+
+def _indent(text, n):
+    return "".join(" " * n + l + "\n" if l else "\n" for l in text.split("\n")) if text else ""
+
+
+HEADER = """from __future__ import annotations
+import cohdl
+from cohdl import std, Bit, BitVector, Port, Null, Unsigned, Signal
 """
 
 
 def render_fifo(cfg):
     _, T, n, tx, rx, ctxs = cfg
     kw = delay_kwargs(tx, rx)
-    push = """            self.push_ack <<= False
+    PT, ET, defs, setup, build, unpack = _elem(T)
+    if is_agg(T):
+        pop_stmt = "popped = fifo.pop()\n                self.pop_data <<= " + unpack.format(v="popped")
+        front_stmt = "fr = fifo.front()\n            self.front <<= " + unpack.format(v="fr")
+    else:
+        pop_stmt = "self.pop_data <<= fifo.pop()"
+        front_stmt = "self.front <<= fifo.front()"
+    push = f"""            self.push_ack <<= False
             if self.push_req and not fifo.full():
-                fifo.push(self.push_data)
+                fifo.push({build})
                 self.push_ack <<= True
 """
-    pop = """            self.pop_valid <<= False
+    pop = f"""            self.pop_valid <<= False
             self.pop_data <<= Null
             if self.pop_req and not fifo.empty():
-                self.pop_data <<= fifo.pop()
+                {pop_stmt}
                 self.pop_valid <<= True
 """
     if ctxs in (1, "1r"):
@@ -138,29 +230,31 @@ def render_fifo(cfg):
     rx_empty = Port.output(Bit, default=True)
 """ if ctxs in ("2o", "2b") else ""
     return f"""{HEADER}
+{defs}
 
 class T(cohdl.Entity):
     clk = Port.input(Bit)
     push_req = Port.input(Bit)
-    push_data = Port.input({T})
+    push_data = Port.input({PT})
     pop_req = Port.input(Bit)
 
     push_ack = Port.output(Bit, default=False)
     pop_valid = Port.output(Bit, default=False)
-    pop_data = Port.output({T}, default=Null)
+    pop_data = Port.output({PT}, default=Null)
     empty = Port.output(Bit)
     full = Port.output(Bit)
-    front = Port.output({T})
+    front = Port.output({PT})
 {views}
     def architecture(self):
         clk = std.Clock(self.clk)
-        fifo = std.Fifo[{T}, {n}]({kw})
-
+        d = self.push_data
+        fifo = std.Fifo[{ET}, {n}]({kw})
+{_indent(setup, 8)}
         @std.concurrent
         def logic():
             self.empty <<= fifo.empty()
             self.full <<= fifo.full()
-            self.front <<= fifo.front()
+            {front_stmt}
 
 {procs}
 """
@@ -170,28 +264,37 @@ def render_stack(cfg):
     _, T, n, mode = cfg
     sw = max(1, n.bit_length())
     gate = "self.push_req" if mode == "DROP_OLD" else "self.push_req and not stack.full()"
+    PT, ET, defs, setup, build, unpack = _elem(T)
+    if is_agg(T):
+        pop_stmt = "popped = stack.pop()\n                self.pop_data <<= " + unpack.format(v="popped")
+        front_stmt = "fr = stack.front()\n                self.front <<= " + unpack.format(v="fr")
+    else:
+        pop_stmt = "self.pop_data <<= stack.pop()"
+        front_stmt = "self.front <<= stack.front()"
     return f"""{HEADER}
+{defs}
 
 class T(cohdl.Entity):
     clk = Port.input(Bit)
     push_req = Port.input(Bit)
-    push_data = Port.input({T})
+    push_data = Port.input({PT})
     pop_req = Port.input(Bit)
     reset_req = Port.input(Bit)
 
     push_ack = Port.output(Bit, default=False)
     pop_valid = Port.output(Bit, default=False)
-    pop_data = Port.output({T}, default=Null)
+    pop_data = Port.output({PT}, default=Null)
     empty = Port.output(Bit)
     full = Port.output(Bit)
     size = Port.output(Unsigned[{sw}])
     front_valid = Port.output(Bit, default=False)
-    front = Port.output({T}, default=Null)
+    front = Port.output({PT}, default=Null)
 
     def architecture(self):
         clk = std.Clock(self.clk)
-        stack = std.Stack[{T}, {n}](mode=std.StackMode.{mode})
-
+        d = self.push_data
+        stack = std.Stack[{ET}, {n}](mode=std.StackMode.{mode})
+{_indent(setup, 8)}
         @std.concurrent
         def logic():
             self.empty <<= stack.empty()
@@ -207,13 +310,13 @@ class T(cohdl.Entity):
             # front() is undefined while empty: only look at it when there is something (as upstream test_stack_01)
             self.front_valid <<= False
             if not stack.empty():
-                self.front <<= stack.front()
+                {front_stmt}
                 self.front_valid <<= True
             if {gate}:
-                stack.push(self.push_data)
+                stack.push({build})
                 self.push_ack <<= True
             if self.pop_req and not stack.empty():
-                self.pop_data <<= stack.pop()
+                {pop_stmt}
                 self.pop_valid <<= True
             if self.reset_req:
                 stack.reset()
